@@ -815,6 +815,11 @@ def _cond_eval(e, ctx):
             raise StructureMismatch("comparison of tensors")
         fi = merge_fi(a, b)
         x, y = bcast(expand(a, d, fi), expand(b, d, fi))
+        if e.ufl_operands[0] is e.ufl_operands[1] and not name.startswith(("EQ", "NE")):
+            # the very same expression on both sides: an exact tie by construction, not a numerical near-tie
+            px = ctx.B.to_complex(J.primal(x, d))
+            if np.all(np.isfinite(px)) and not np.any(np.abs(px.imag) > 1e-12):
+                return BoolV(np.full(px.shape, _CMP[name] in ("le", "ge"), dtype=bool), fi)
         return BoolV(ctx.B.compare(_CMP[name], J.primal(x, d), J.primal(y, d)), fi)
     if name in ("AndCondition", "OrCondition"):
         a, b = (_cond(o, ctx) for o in e.ufl_operands)
